@@ -187,3 +187,52 @@ func VerifC09_Blocks() {
 		sym.Assert(out.err == nil, m.name+"-endblock-returns-no-error")
 	}
 }
+
+// VerifC09_SetChanges: the validator set changes between two snapshot builds —
+// validators leave (jailed), change stake or join — and the periodic end
+// blockers (snapshot build at a multiple of 50, liveness sweep, publication)
+// must get through the block all the same.
+func VerifC09_SetChanges() {
+	env := New(100)
+	env.AddChain(ChainA, 1)
+	n0 := 2 + sym.Choice("initial-validators", 2) // 2 or 3
+	stakes := []int64{10_000_000, 20_000_000}
+	for i := 0; i < n0; i++ {
+		env.AddValidator(i, stakes[sym.Choice("stake", 2)], ChainA)
+	}
+	if _, err := env.Valset.TriggerSnapshotBuild(env.Ctx); err != nil {
+		panic(err)
+	}
+	env.SetupFees(sdkmath.LegacyMustNewDecFromStr("1.5"), 0, 1, 2, 3)
+	// changes before the next periodic build
+	for i := 0; i < n0; i++ {
+		switch sym.Choice("change", 3) {
+		case 1:
+			env.Staking.Find(Vals[i]).Jailed = true
+			sym.Reach("validator-left")
+		case 2:
+			sv := env.Staking.Find(Vals[i])
+			sv.Tokens = sdkmath.NewInt(30_000_000)
+			sv.Power = 30
+		}
+	}
+	if sym.Bool("validator-joins") {
+		env.AddValidator(3, stakes[sym.Choice("stake", 2)], ChainA)
+	}
+	env.Ctx = env.Ctx.WithBlockHeight(150)
+	mods := []struct {
+		name string
+		run  func() error
+	}{
+		{"valset", func() error { return valsetmodule.NewAppModule(env.Cdc, *env.Valset, nil, nil).EndBlock(env.Ctx) }},
+		{"evm", func() error { return evmmodule.NewAppModule(env.Cdc, *env.Evm, nil, nil).EndBlock(env.Ctx) }},
+		{"consensus", func() error { return consensusmodule.NewAppModule(env.Cdc, *env.Consensus, nil, nil).EndBlock(env.Ctx) }},
+		{"metrix", func() error { return metrixmodule.NewAppModule(env.Cdc, *env.Metrix).EndBlock(env.Ctx) }},
+	}
+	for _, m := range mods {
+		out := c09Run(m.run)
+		sym.Reach(m.name + "-endblock-ran")
+		sym.Assert(!out.panicked, m.name+"-endblock-does-not-panic")
+		sym.Assert(out.err == nil, m.name+"-endblock-returns-no-error")
+	}
+}
